@@ -53,14 +53,18 @@ func lookupFlow[T any](urlTree *URLTree[T], url string) lookupFlowNodeResult[T] 
 		break
 	}
 
-	if fullyMatched && index == lookUpLength && currentNode.hasValue() &&
-		currentNode.WildcardChild == nil {
-		flows = append(flows, *currentNode.Value)
-	} else if fullyMatched && index == lookUpLength && part.IsPartOfHost &&
-		currentNode.WildcardChild != nil && currentNode.WildcardChild.hasValue() {
-		// case where url is host without path and filter ends with a wildcard, for example:
-		// url: "host.com", filter: "host.com/*"
-		flows = append(flows, *currentNode.WildcardChild.Value)
+	if fullyMatched && index == lookUpLength {
+		if part.IsPartOfHost &&
+			currentNode.WildcardChild != nil && currentNode.WildcardChild.hasValue() {
+			// case where url is host without path and filter ends with a wildcard, for example:
+			// url: "host.com", filter: "host.com/*"
+			flows = append(flows, *currentNode.WildcardChild.Value)
+		}
+		// the value declared for exactly this URL counts whether or not a wildcard
+		// ("<url>/*") is declared below it
+		if currentNode.hasValue() {
+			flows = append(flows, *currentNode.Value)
+		}
 	}
 
 	for _, flow := range flows {
